@@ -3,7 +3,7 @@ from vf.common import Report, finish, SEED
 from vf.rtc import runner
 from contracts import setup_rt as S
 
-CRYS_Q = ['FCC', 'BCC', 'HCP', 'B2', 'HCP+OT', 'ortho2site', 'wurtzite+X', 'mono-P2/m-rotated']
+CRYS_Q = ['FCC', 'BCC', 'HCP', 'B2', 'HCP+OT', 'ortho2site', 'wurtzite+X', 'mono-P2/m-rotated', 'host-2wyckoff+X']
 CRYS_T = CRYS_Q + ['SC', 'diamond', 'L12', 'omega', 'tric-P-1', 'HCP-rotated', 'P-4(S4 site)', 'mono-P2/m']
 SUP_Q = ['3x3x3', 'sheared', 'rot-hex', '2x2x2', '5x5x3', 'left-handed']
 SUP_T = list(S.SUPERS)
